@@ -82,6 +82,9 @@ def run(prop, tier, replay=None):
         # the while-running family: a few programs per process (they may leave the process in a bad state)
         nh = 16 if tier == "quick" else 400
         plan += [("c08h", i, 1) for i in range(nh)]
+        # the state clause ("Running only while workers are alive") is also exercised by the fault scenarios
+        nf = 6 if tier == "quick" else 120
+        plan += [("c09", 500000 + w * nf, nf) for w in range(6)]
     if prop in ("C04", "C06") and tier == "thorough":
         plan += [("c05", 100000 + w * 60, 60) for w in range(8)]  # other scenario mixes under the same oracles
         plan += [("c10", 100000 + w * 40, 40) for w in range(8)]
